@@ -1270,3 +1270,87 @@ pub proof fn lemma_mdat_patch(dd: Seq<u8>, mdat_pos: int, size: int)
         assert forall|i: int| 0 <= i < dd.len() && !(mdat_pos <= i < mdat_pos + 4) implies x[i] == dd[i] by {}
     }
 }
+
+// ---- from the muxer's own postconditions to the reader's file relation
+/// what write_start leaves in the stream and every later muxer step keeps (start = where the file begins in the stream)
+pub open spec fn mw_layout<W: Stream>(m: Mp4Writer<W>, start: int, f: FtypBox) -> bool {
+    &&& 0 <= start && ftyp_wire(f) && m.mdat_pos == start + ftyp_len(f) && m.mdat_pos + 16 <= m.writer.pos()
+    &&& m.writer.pos() == m.writer.data().len()
+    &&& forall|j: int| 0 <= j < ftyp_len(f) ==> #[trigger] m.writer.data()[start + j] == ftyp_bytes(f)[j]
+    &&& be32(m.writer.data(), m.mdat_pos + 4) == 0x6d646174
+}
+/// [C02+C14.ws.layout] of Mp4Writer::write_start, for a stream that stood at its end, is this layout
+pub proof fn lemma_layout_start<W: Stream>(d: Seq<u8>, p: int, f: FtypBox, m: Mp4Writer<W>)
+    requires 0 <= p, p == d.len(), ftyp_wire(f), m.mdat_pos == p + ftyp_len(f), m.writer.pos() == m.mdat_pos + 16,
+             m.writer.data() == wr(d, p, ftyp_bytes(f) + hdr_bytes(8, 0x6d646174) + hdr_bytes(8, 0x77696465))
+    ensures mw_layout(m, p, f)
+{
+    broadcast use lemma_wr_len, lemma_be_bytes_len, lemma_ftyp_prefix_len;
+    let fb = ftyp_bytes(f); let mh = hdr_bytes(8, 0x6d646174); let wh = hdr_bytes(8, 0x77696465);
+    let all = fb + mh + wh;
+    assert(fb.len() == ftyp_len(f));
+    assert forall|j: int| 0 <= j < ftyp_len(f) implies #[trigger] m.writer.data()[p + j] == fb[j] by {
+        assert(all[j] == fb[j]); lemma_wr_index(d, p, all, j);
+    }
+    assert(all == (fb + be_bytes(8, 4) + be_bytes(0x6d646174, 4)) + wh) by { assert(all =~= (fb + be_bytes(8, 4) + be_bytes(0x6d646174, 4)) + wh); }
+    lemma_prefix_concat(fb + be_bytes(8, 4) + be_bytes(0x6d646174, 4), wh);
+    lemma_rd4(d, p, fb + be_bytes(8, 4), 0x6d646174, all);
+}
+/// a step that only appends keeps it
+pub proof fn lemma_layout_step<W: Stream>(a: Mp4Writer<W>, b: Mp4Writer<W>, start: int, f: FtypBox)
+    requires mw_layout(a, start, f), stream_grows(a.writer, b.writer), b.mdat_pos == a.mdat_pos
+    ensures mw_layout(b, start, f)
+{
+    broadcast use lemma_be_bytes_len, lemma_ftyp_prefix_len;
+    assert forall|j: int| 0 <= j < ftyp_len(f) implies #[trigger] b.writer.data()[start + j] == ftyp_bytes(f)[j] by {
+        assert(b.writer.data()[start + j] == a.writer.data()[start + j]);
+    }
+    let q = a.mdat_pos + 4;
+    assert(b.writer.data()[q] == a.writer.data()[q] && b.writer.data()[q + 1] == a.writer.data()[q + 1]
+           && b.writer.data()[q + 2] == a.writer.data()[q + 2] && b.writer.data()[q + 3] == a.writer.data()[q + 3]);
+}
+pub proof fn lemma_pending_sum_nonneg(v: Seq<Mp4TrackWriter>, n: int)
+    requires 0 <= n
+    ensures pending_sum(v, n) >= 0
+    decreases n
+{
+    if n > 0 { lemma_pending_sum_nonneg(v, n - 1); }
+}
+/// flushing the pending chunks from the end of the stream only appends
+pub proof fn lemma_flush_all_frame(d: Seq<u8>, p: int, v: Seq<Mp4TrackWriter>, n: int)
+    requires 0 <= p, p == d.len(), 0 <= n <= v.len()
+    ensures flush_all(d, p, v, n).len() == p + pending_sum(v, n), forall|i: int| 0 <= i < p ==> #[trigger] flush_all(d, p, v, n)[i] == d[i]
+    decreases n
+{
+    broadcast use lemma_wr_len;
+    if n > 0 {
+        lemma_flush_all_frame(d, p, v, n - 1);
+        lemma_pending_sum_nonneg(v, n - 1);
+    }
+}
+/// THE STRUCTURE HALF OF C01 / C02 / C14: the file that Mp4Writer::write_end leaves (mw_final), when the writer state carried the
+/// layout of write_start (mw_layout) and the movie box is one the muxer builds (moov_muxed), satisfies the reader's file relation
+/// (the two conjuncts of file_parsed) for the muxer's own ftyp and its movie box (up to the avcC length-size normalisation)
+#[verifier::rlimit(300)]
+pub proof fn lemma_muxed_file<W: Stream>(m0: Mp4Writer<W>, out: Seq<u8>, moov: MoovBox, moov2: MoovBox, start: int, f: FtypBox)
+    requires mw_layout(m0, start, f), mw_final(m0, out, moov), moov_exact(moov), moov_muxed(moov), moov_same_norm(moov, moov2),
+             m0.writer.pos() + pending_sum(m0.tracks@, m0.tracks@.len() as int) < 0x4000_0000_0000_0000
+    ensures rel_moov(out, Some(moov2), top_last_of(out, start, out.len() as int, BoxType::MoovBox, None)),
+            rel_ftyp(out, Some(f), top_last_of(out, start, out.len() as int, BoxType::FtypBox, None))
+{
+    broadcast use lemma_be_bytes_len, lemma_ftyp_prefix_len;
+    let n = m0.tracks@.len() as int; let p0 = m0.writer.pos() as int; let d0 = m0.writer.data();
+    let pn = p0 + pending_sum(m0.tracks@, n);
+    let dd = flush_all(d0, p0, m0.tracks@, n);
+    lemma_flush_all_frame(d0, p0, m0.tracks@, n);
+    lemma_pending_sum_nonneg(m0.tracks@, n);
+    let q = m0.mdat_pos + 4;
+    assert(dd[q] == d0[q] && dd[q + 1] == d0[q + 1] && dd[q + 2] == d0[q + 2] && dd[q + 3] == d0[q + 3]);
+    lemma_mdat_patch(dd, m0.mdat_pos as int, pn - m0.mdat_pos);
+    let x = mdat_size_patch(dd, m0.mdat_pos as int, pn - m0.mdat_pos);
+    assert(ftyp_bytes(f).len() == ftyp_len(f));
+    assert forall|j: int| 0 <= j < ftyp_bytes(f).len() implies x[start + j] == ftyp_bytes(f)[j] by {
+        assert(x[start + j] == dd[start + j]); assert(dd[start + j] == d0[start + j]);
+    }
+    lemma_file_roundtrip(x, start, m0.mdat_pos as int, pn, f, moov, moov2);
+}
